@@ -184,6 +184,7 @@ static FunctionSignature *parse_function_signature(Stage1Parser *p) {
     sig->param_struct_names = NULL;
     sig->return_type = TYPE_UNKNOWN;
     sig->return_struct_name = NULL;
+    sig->return_fn_sig = NULL;  /* read by free_function_signature on every error path below */
     
     /* Parse parameter types */
     tok = current_token(p);
@@ -2057,7 +2058,7 @@ static ASTNode *parse_primary(Stage1Parser *p) {
                         if (func_expr) free_ast(func_expr);
                         if (module_alias) free(module_alias);
                         if (qualified_func_name) free(qualified_func_name);
-                        if (first_expr && first_expr->type == AST_IDENTIFIER) {
+                        if (first_expr && first_expr != func_expr && first_expr->type == AST_IDENTIFIER) {
                             free(first_expr);  /* Don't use free_ast - we already extracted the identifier */
                         }
                         return NULL;
@@ -2074,7 +2075,7 @@ static ASTNode *parse_primary(Stage1Parser *p) {
                     if (func_expr) free_ast(func_expr);
                     if (module_alias) free(module_alias);
                     if (qualified_func_name) free(qualified_func_name);
-                    if (first_expr && first_expr->type == AST_IDENTIFIER) {
+                    if (first_expr && first_expr != func_expr && first_expr->type == AST_IDENTIFIER) {
                         free(first_expr);
                     }
                     return NULL;
